@@ -46,6 +46,7 @@
 //! If you define two structures with the same marker, only the first one will work.
 //!
 use std::cell::RefCell;
+use std::collections::HashSet;
 use crate::{MarkdownIt, Node};
 use crate::parser::inline::{InlineRule, InlineState, Text};
 
@@ -57,6 +58,8 @@ struct CodePairCache<const MARKER: char> {
     scanned_from: usize,
     scanned_to: usize,
     max: Vec<usize>,
+    // positions strictly inside a marker run whose opener found no closer
+    inside_failed: HashSet<usize>,
 }
 
 #[derive(Debug)]
@@ -76,7 +79,6 @@ impl<const MARKER: char, const TOKENIZE: bool> InlineRule for CodePairScanner<MA
     fn run(state: &mut InlineState, silent: bool) -> Option<usize> {
         let mut chars = state.src[state.pos..state.pos_max].chars();
         if chars.next().unwrap() != MARKER { return None; }
-        if state.trailing_text_get().ends_with(MARKER) { return None; }
 
         let mut pos = state.pos + 1;
 
@@ -90,11 +92,16 @@ impl<const MARKER: char, const TOKENIZE: bool> InlineRule for CodePairScanner<MA
         let mut backticks = state.inline_env.get::<RefCell<CodePairCache<MARKER>>>().unwrap().borrow_mut();
         let opener_len = pos - state.pos;
 
+        // we are in the middle of a marker run that already failed to open anything
+        // (remembered here rather than read off the tree, so that look-ahead agrees)
+        if backticks.inside_failed.contains(&state.pos) { return None; }
+
         if backticks.scanned && state.pos >= backticks.scanned_from && state.pos_max <= backticks.scanned_to &&
            backticks.max.get(opener_len).copied().unwrap_or(0) <= state.pos {
             // performance note: adding entire sequence into pending is 5x faster,
             // but it will interfere with other rules working on the same char;
             // and it is extremely rare that user would put a thousand "`" in text
+            backticks.inside_failed.extend(state.pos + 1..pos);
             return None;
         }
 
@@ -162,6 +169,7 @@ impl<const MARKER: char, const TOKENIZE: bool> InlineRule for CodePairScanner<MA
             backticks.scanned_from = state.pos;
             backticks.scanned_to = state.pos_max;
         }
+        backticks.inside_failed.extend(state.pos + 1..pos);
 
         None
     }
